@@ -551,10 +551,10 @@ def velocity(vclass, u, vmin, cb, vJ):
 
 def branch_of(vw, vp, vm):
     """Branch label of a returned matching (classification proper is C06's subject)."""
+    if vm == vw:  # (also covers the shock-free limit v+ = v- = vw of a deflagration)
+        return "deflagration"
     if vp == vw:
         return "detonation"
-    if vm == vw:
-        return "deflagration"
     return "hybrid"
 
 
